@@ -36,17 +36,20 @@ def opaque_str(name):
     return StringV([z3.BitVec("%s_%d" % (name, i), 32) for i in range(2)])
 
 
-def fmt_elem_union(tag):
-    """a symbolic format element: Literal / any Field / any Special"""
+def fmt_elem_union(tag, P=None):
+    """a symbolic format element: Literal / a Field / any Special variant of the current source (index 3 is the newline escape)"""
     k = z3.Int("fe_" + tag)
-    alts = [(k == 0, Adt("FormatElement", "Literal", [opaque_str("lit" + tag)])),
-            (k == 1, Adt("FormatElement", "Field", [Adt("FormatField", "Name")])),
-            (k == 2, Adt("FormatElement", "Field", [Adt("FormatField", "Percent")])),
-            (k == 3, Adt("FormatElement", "Special", [Adt("FormatSpecial", "Newline")])),
-            (k == 4, Adt("FormatElement", "Special", [Adt("FormatSpecial", "TabHorizontal")])),
-            (k == 5, Adt("FormatElement", "Special", [Adt("FormatSpecial", "Null")])),
-            (k == 6, Adt("FormatElement", "Special", [Adt("FormatSpecial", "Ascii", [z3.BitVec("asc" + tag, 16)])]))]
-    return Union(alts), k, [z3.And(k >= 0, k <= 6)]
+    elems = [Adt("FormatElement", "Literal", [opaque_str("lit" + tag)]),
+             Adt("FormatElement", "Field", [Adt("FormatField", "Name")]),
+             Adt("FormatElement", "Field", [Adt("FormatField", "Percent")]),
+             Adt("FormatElement", "Special", [Adt("FormatSpecial", "Newline")])]
+    specials = list(P.enum_variants.get("FormatSpecial", [])) if P is not None else ["TabHorizontal", "Null", "Ascii"]
+    for v in specials:
+        if v == "Newline":
+            continue
+        nf = len(P.variant_field_types.get(("FormatSpecial", v), [])) if P is not None else (1 if v == "Ascii" else 0)
+        elems.append(Adt("FormatElement", "Special", [Adt("FormatSpecial", v, [z3.BitVec("asc%s_%d" % (tag, i), 16) for i in range(nf)])]))
+    return Union([(k == i, e) for i, e in enumerate(elems)]), k, [z3.And(k >= 0, k <= len(elems) - 1)]
 
 
 def helper_run(B, fname, tree, assume, profile="dev"):
@@ -169,7 +172,7 @@ def run(ctx, rep, tier):
                 elems, ass = [], []
                 lastk = None
                 for i in range(n):
-                    e, k, asm = fmt_elem_union("%s%d_%d" % (v[:2], n, i))
+                    e, k, asm = fmt_elem_union("%s%d_%d" % (v[:2], n, i), P)
                     elems.append(e)
                     ass += asm
                     lastk = k
@@ -264,7 +267,7 @@ def run(ctx, rep, tier):
     cov.update(explanation="inductive step over opaque subtrees for every Operator variant + every leaf variant of Test/Action/"
                "Global/Positional (enumerated from the current source) decided by z3 on the MIR of action()/complex_frames(); unit "
                "helpers for every unit with a symbolic u64 count in both MIR profiles; Kani harnesses on the compiled crate",
-               bounds=dict(depth="unbounded (induction over operator nodes)", format_list_len="0..3 (last element symbolic over 7 kinds)",
+               bounds=dict(depth="unbounded (induction over operator nodes)", format_list_len="0..3 (every element symbolic over literal, two fields and every FormatSpecial variant)",
                            count="any u64"),
                outside="format lists longer than 3",
                samples=samples, evaluations=len(rep.queries), distinct_nontrivial=len(rep.queries))
